@@ -13,6 +13,7 @@
   Strict mode (no `distinctfd`), no CLP(Z) constraint on an FD variable.
 -/
 import PvModel.Proofs.EnforceKeys
+import PvModel.Proofs.ReifyGoal
 namespace Pv
 open State Term Goal FD
 
@@ -52,6 +53,20 @@ theorem C17_hidden_onceo {ord : Order} (ho : OrderOK ord) (dfs : Call → State 
     (∀ b, ys.head? = some b → b.dstore = [] ∧ (∀ p ∈ b.store, p.2.isDiseq = true) ∧ ∀ γ, Sem NoI γ b → Sem NoI γ c) ∧
     ((∃ γ, Sem NoI γ c) → ys.head?.isSome = true) ∧ (ds = [] → ys.head? = none) :=
   hidden_labelling_engine ho dfs pf m ks n N c ds ys hn hi hp hops hks hko h hall hd
+
+/-- ASSEMBLY OF `enforce_constraints_fd` ON THE ENGINE (Proofs/ReifyGoal.lean `enforce_compose`): the labelling of the
+    query term delivers blocks `xs`; from block `c` the `onceo` over the remaining domain variables delivers `o c`
+    (`C17_hidden_onceo`: at most one closed state, one iff the block has a solution).  The whole goal then delivers, in some
+    engine order of the blocks, exactly the states `o c`: ONE answer per block with a solution, NONE for the others. -/
+theorem C17_enforce_assembly (ord : Order) (dfs : Call → State → State × G) (pf M : Nat) (x : Term) (s : State) (N : Nat)
+    (xs : List State) (o : State → Option State)
+    (h1 : evalRef dfs N (forceAns ord forceFuel x) s = some xs)
+    (hb : ∀ c ∈ xs, c.panic = none ∧ c.allBound = true ∧
+      start dfs (solveAt dfs pf (M + 1)) pf
+        (Goal.onceo [forceAns ord forceFuel (Term.ofList ((ord.ds c.dstore).map fun p => Term.var p.1))]) c = firstStrm (o c)) :
+    ∃ xs', xs.Perm xs' ∧
+      AnsS (solveAt dfs pf (M + 2)) (solveAt dfs pf (M + 2) (enforceFd ord x) s) (xs'.flatMap fun c => (o c).toList) :=
+  enforce_compose dfs pf M ord x s N xs o h1 hb
 
 /-! Non-vacuity.  `x, y in 1..2, x != y` (two solutions): `onceo` over the labelling of both variables delivers ONE closed
     state.  `x, y, z in 1..2`, pairwise different (no solution, but pairwise propagation does not see it): NO state. -/
